@@ -55,6 +55,7 @@ var rep = report{Rewrites: map[string]int{}, Imports: map[string]string{}}
 // Import substitutions applied in every instrumented package.
 var globalSubst = map[string]string{
 	"sync":                   simPath + "simsync",
+	"sync/atomic":            simPath + "simatomic",
 	"github.com/golang/glog": simPath + "simlog",
 }
 
